@@ -110,7 +110,7 @@ def evalH (h : String → Except Err Val) (env : Env) : PExpr → Except Err Val
   | .un op a => do
     let v ← evalH h env a
     match op with
-    | .pos => .ok v          -- `return v` (no operation performed)
+    | .pos => (match v.num? with | some n => .ok (.int n) | none => .error .pyError)     -- `return +v`
     | .neg => (match v.num? with | some n => .ok (.int (-n)) | none => .error .pyError)
     | .not => .ok (.bool (!v.truthy))
   | .and a b => do let x ← evalH h env a; if x.truthy then evalH h env b else pure x
